@@ -10,6 +10,7 @@
 //   4  R2 = R1.RemoveUselessStates(), R3 = A.RemoveUnreachableStates()   expected L(R1), L(A); no useless state in R2
 //   5  R2 = UnionDisjointStates(R1, C), C over fresh state numbers       expected L(A) u L(B) u L(C)
 //   6  (ENC 0) T1 = R1.GetTopDownAut(), T2 = A.GetTopDownAut()           expected L(R1), L(A)
+//   7  (ENC 0) TA = A.GetTopDownAut(), TB = B loaded as a top-down automaton; Intersection(TA, TB), Union(TA, TB)
 // After every call all automata built so far (operands and earlier results) are dumped again; none may have changed its
 // language.  Solver variables: presence/finality bits of A, B, C over U(NA|NB|NC, SYM_RANKS).
 #include "bddaut.h"
@@ -105,6 +106,16 @@ extern "C" void harness(void)
 #elif SEQ == 6
   BDDTopDownTreeAut t1 = r1.GetTopDownAut(); BDDTopDownTreeAut t2 = a.GetTopDownAut();
   same(t1, full, eAB, 20); same(t2, full, eA, 22);
+#elif SEQ == 7
+  // a converted automaton meets a directly loaded top-down automaton: both must use the same encoding of symbols and ranks
+  BDDTopDownTreeAut ta = a.GetTopDownAut();
+  BDDTopDownTreeAut tb; BA::StateDict dictT; BA::seedDict(dictT, NA, NA + NB); BA::load(tb, B, dictT, NA);
+  BDDTopDownTreeAut r2 = BDDTopDownTreeAut::Intersection(ta, tb);
+  { enum { NP = NA * NB }; BA::Dump<NP> d = BA::dump<NP>(r2, full, true); CHECK(d.ok, 20);
+    BA::Aut<NA * NB> AxB = BA::product(A, B);
+    CHECK(BA::included(d.aut, A) & BA::included(d.aut, B) & BA::included(AxB, d.aut), 21); }
+  BDDTopDownTreeAut r3 = BDDTopDownTreeAut::Union(ta, tb);
+  { enum { NU = NA + NB }; BA::Dump<NU> d = BA::dump<NU>(r3, full, true); CHECK(d.ok, 24); CHECK(BA::sameLang(eAB, d.aut), 25); }
 #endif
   // everything that existed before the second call still denotes what it denoted
   same(r1, full, eAB, 30); same(a, full, eA, 32); same(b, full, eB, 34);
